@@ -77,6 +77,9 @@ pub struct Aggregate {
     pub samples: Vec<serde_json::Value>,
     pub violations: Vec<serde_json::Value>,
     pub known_hits: BTreeMap<String, u64>,
+    /// runs that were cut short by a failure belonging to another property (a panic = C17, a
+    /// deadlock / exhausted step budget = C18): signature -> (count, first replay file)
+    pub foreign: BTreeMap<String, (u64, String)>,
     pub next_index: u64,
     pub finished: bool,
     pub determinism_digest: u64,
@@ -498,7 +501,9 @@ fn failure_violation(property: &str, payload: &str) -> Violation {
         Some(i) => (i.role, norm_file(&i.file), i.line, i.message),
         None => ("unknown".to_string(), String::new(), 0, payload.to_string()),
     };
-    let prop = if property == "C18" { "C17" } else { property };
+    // a panic in any task is C17's business, whichever check happened to run into it
+    let _ = property;
+    let prop = "C17";
     Violation {
         property: prop.to_string(),
         signature: format!("{}/panic/{}/{}/{}", prop, role, file.rsplit('/').next().unwrap_or(""), msg_class(&message)),
@@ -624,6 +629,17 @@ fn cmd_run(args: &[String]) -> i32 {
                 let known = known_match(&sh.work.known, &v).map(|k| k.id.clone());
                 if let Some(id) = known {
                     *sh.agg.known_hits.entry(id).or_insert(0) += 1;
+                    write_agg(&out, &sh.agg);
+                    3
+                } else if v.property != sh.work.property {
+                    // not this property's business: note it (with a replay file) and carry on
+                    let first = sh.agg.foreign.get(&v.signature).map(|e| e.1.clone());
+                    let path = match first {
+                        Some(p) => p,
+                        None => write_replay(sh, &sc, &rec, &v, hh, cur.index, cur.run_seed),
+                    };
+                    let e = sh.agg.foreign.entry(v.signature.clone()).or_insert((0, path));
+                    e.0 += 1;
                     write_agg(&out, &sh.agg);
                     3
                 } else {
